@@ -71,6 +71,8 @@ Ty == [
   SA    |-> St("struct", 20, 4, <<M("ps", "AP2", 0), M("k", "char", 16)>>),
   \* struct SC { char s[6]; short z; }
   SC    |-> St("struct", 8, 2, <<M("s", "AC6", 0), M("z", "short", 6)>>),
+  \* struct SW { int w[3]; char k; }   (w doubles as a wchar_t array)
+  SW    |-> St("struct", 16, 4, <<M("w", "AI3", 0), M("k", "char", 12)>>),
   AS0   |-> St("struct", 8, 4, <<M("q", "int", 0), M("r", "char", 4)>>),
   \* struct AS { struct { int q; char r; }; int t; }
   AS    |-> St("struct", 12, 4, <<M("", "AS0", 0), M("t", "int", 8)>>)
